@@ -20,7 +20,7 @@ meta = {
         'demo_fails_with_change': 'DEMO_WITH exit=1' in val,
         'demo_passes_without_change': 'DEMO_WITHOUT exit=0' in val,
         'commands': ['tools/validate_seed.sh (repository suite vs. recorded baseline of 40 pre-existing failures/errors; '
-                     'demo with the change; demo after git stash)'],
+                     'demo with the change; demo after `git checkout -- kopf` (no stash))'],
     },
     'detected_by': [],
 }
